@@ -437,7 +437,40 @@ func (x *Exec) binop(op token.Token, a, b Val, t types.Type, pos func() string) 
 			}
 			return BV{W: w, T: fmt.Sprintf("(%s %s (_ bv%d %d))", n, u.term(), amt, w)}
 		}
-	case PtrV, IfaceV, SliceV, *MapV, FuncV, *StructV, *ArrV, RTypeV, OpaqueV, *ChanV, nil:
+	case OpaqueV:
+		if fa, ok := concF(a); ok {
+			if fb, ok := concF(b); ok {
+				switch op {
+				case token.ADD:
+					return fv(fa + fb)
+				case token.SUB:
+					return fv(fa - fb)
+				case token.MUL:
+					return fv(fa * fb)
+				case token.QUO:
+					return fv(fa / fb)
+				case token.LSS:
+					return cbool(fa < fb)
+				case token.LEQ:
+					return cbool(fa <= fb)
+				case token.GTR:
+					return cbool(fa > fb)
+				case token.GEQ:
+					return cbool(fa >= fb)
+				case token.EQL:
+					return cbool(fa == fb)
+				case token.NEQ:
+					return cbool(fa != fb)
+				}
+			}
+		}
+		switch op {
+		case token.EQL:
+			return x.valEq(a, b)
+		case token.NEQ:
+			return notB(x.valEq(a, b))
+		}
+	case PtrV, IfaceV, SliceV, *MapV, FuncV, *StructV, *ArrV, RTypeV, *ChanV, nil:
 		switch op {
 		case token.EQL:
 			return x.valEq(a, b)
@@ -665,6 +698,9 @@ func (x *Exec) call(fv FuncV, args []Val, site string) Val {
 		if r, ok := x.nativeStrings(fv.Fn, args); ok {
 			return r
 		}
+		if r, ok := x.nativeMath(fv.Fn, args); ok {
+			return r
+		}
 		if strings.HasPrefix(x.w.name(fn), ndPath+".") && fn.Name() != "init" {
 			return x.intrinsic(fn, args, site)
 		}
@@ -680,7 +716,7 @@ func (x *Exec) call(fv FuncV, args []Val, site string) Val {
 		if fn.Name() == "init" && fn.Synthetic == "package initializer" && !x.w.initOK(fn.Pkg) {
 			return nil
 		}
-		if fn == fv.Fn && (fn.Pkg == nil || fn.Pkg.Pkg.Path() != "strings") {
+		if fn == fv.Fn && (fn.Pkg == nil || (fn.Pkg.Pkg.Path() != "strings" && fn.Pkg.Pkg.Path() != "math")) {
 			if _, isRedirect := x.w.redirect[name]; !isRedirect {
 				x.w.plain.Store(fn, true)
 			}
@@ -829,6 +865,10 @@ func (x *Exec) run(f *frame) Val {
 				case token.NOT:
 					f.regs[f.idx[in]] = notB(v.(BoolV))
 				case token.SUB:
+					if fl, ok := concF(v); ok {
+						f.regs[f.idx[in]] = fv(-fl)
+						break
+					}
 					b := v.(BV)
 					f.regs[f.idx[in]] = x.binop(token.SUB, cbv(b.W, 0), b, in.Type(), nil)
 				case token.ARROW:
